@@ -150,6 +150,13 @@ def worker(chunk):
             # switch-only pipelines: the hypotheses of the switch-safety theorems hold; Sem agrees with the eager solution
             st = tr.setdefault('stats', {})
             st['switch_only_programs'] = st.get('switch_only_programs', 0) + 1
+            # the hypotheses of the stuck-freedom theorem for switch pipelines (LiveP: collaborators that do not suspend,
+            # case nodes that are ordinary nodes, every reduced DAG closed under dependencies)
+            if sem.get('sw_noyield'):
+                st['switch_programs_without_suspending_collaborators'] = \
+                    st.get('switch_programs_without_suspending_collaborators', 0) + 1
+                if sem.get('live_hyp'):
+                    st['switch_liveness_hypotheses_hold'] = st.get('switch_liveness_hypotheses_hold', 0) + 1
             if sem.get('sem_solves_sw'):
                 st['sem_is_switch_solution'] = st.get('sem_is_switch_solution', 0) + 1
             elif not div:
